@@ -268,6 +268,34 @@ pub fn destroy_shared_direct<const N1: usize, const N2: usize, const T: usize>()
     std::mem::forget(world);
 }
 
+/// The closure may also return the two-valued `EcsStep` or `()`: nothing is ever destroyed,
+/// `EcsStep::Break` stops the whole query without destroying the entity it breaks on.
+pub fn plain_step_closures<const N1: usize, const N2: usize>() {
+    let (mut world, mt, mo) = setup::<N1, N2>();
+    let k = sym::any_usize();
+    sym::assume(k <= N1 + N2 + 1);
+    let mut calls = 0usize;
+    ecs_iter_destroy!(world, |_p: &P| {
+        calls += 1;
+        if calls == k { EcsStep::Break } else { EcsStep::Continue }
+    });
+    let total = mt.len + mo.len;
+    assert!(calls == if k >= 1 && k <= total { k } else { total }, "EcsStep::Break in ecs_iter_destroy! did not stop the whole query at once");
+    let pt: Model<N1> = read::<Tri, N1>(&mut world);
+    let po: Model<N2> = read::<Other, N2>(&mut world);
+    assert_unchanged::<Tri, N1>(&mt, &pt);
+    assert_unchanged::<Other, N2>(&mo, &po);
+    let mut units = 0usize;
+    ecs_iter_destroy!(world, |_p: &P| { units += 1; });
+    assert!(units == total, "a closure returning () did not visit every entity");
+    let pt2: Model<N1> = read::<Tri, N1>(&mut world);
+    assert_unchanged::<Tri, N1>(&mt, &pt2);
+    cover!(k >= 1 && k <= mt.len, "EcsStep::Break inside the first archetype");
+    cover!(mt.len == N1 && mo.len == N2, "both archetypes full");
+    std::mem::forget(world);
+}
+
+harness! { fn c07_plain_step_2_1() unwind(5) { plain_step_closures::<2, 1>() } }
 harness! { fn c07_shared_2_1() unwind(5) { destroy_shared::<2, 1, 3>() } }
 harness! { fn c07_shared_1_2() unwind(5) { destroy_shared::<1, 2, 3>() } }
 harness! { fn c07_shared_2_2() unwind(6) { destroy_shared::<2, 2, 4>() } }
